@@ -1208,6 +1208,35 @@ int main(int argc, char** argv)
         };
         if (!opt.case_file.empty())
             return run.run_single(readCase(opt.case_file));
+        run.round("ground truth: CMP CAN message copied from Wireshark in tests/test_packet.cpp", 1, [&](W& w, uint64_t) {
+            ref::FrameHdr fh;
+            fh.device = 0x21; fh.stream = 4; fh.msgType = ref::MT_DATA; fh.seq = 3;
+            Buf b;
+            ref::putFrameHdr(b.base, fh);
+            ref::putbytes(b.base, captures::kCmpCanMessage);
+            auto desc = [&] { return "pre=0;f=" + b.show(); };
+            if (!w.begin_case(desc))
+                return;
+            Expect e = expectCmp(b.base.data(), b.base.size());
+            bool ok = e.prefix.size() == 1 && e.prefix[0].h.ts == 0x17e03e886b8663cdull && e.prefix[0].h.idword == 1 && e.prefix[0].h.ptype == ref::PT_CAN && e.prefix[0].h.plen == 21 &&
+                      e.prefix[0].v == ref::MUST_VALID && ref::rd(&e.prefix[0].payload[4], 4) == 0x182 && e.prefix[0].payload[14] == 5 && e.prefix[0].payload[15] == 5;
+            if (!ok)
+                w.fail("oracle-self-check:independent-cmp-parser-disagrees-with-wireshark-capture", "CAN message capture");
+            judgeC04(w, 0, b);
+            // the typed getters must report the values Wireshark shows
+            Decoder d;
+            auto pk = d.decode(b.base.data(), b.base.size());
+            if (pk.size() == 1 && pk[0]->isValid() && pk[0]->getPayload().getType() == PayloadType::can)
+            {
+                auto& c = static_cast<const CanPayload&>(pk[0]->getPayload());
+                if (c.getId() != 0x182 || c.getDlc() != 5 || c.getDataLength() != 5 || c.getData() == nullptr || c.getData()[1] != 0x9f || c.getFlags() != 0 || c.getIde())
+                    w.fail("wire:typed-getters-differ-from-wireshark-capture", fmt("id 0x%x dlc %u len %u", c.getId(), c.getDlc(), c.getDataLength()));
+            }
+            else
+                w.fail("wire:capture-not-decoded-as-valid-can", "the Wireshark CAN capture did not decode to one valid CAN packet");
+            w.add(mc::C_TRACES, 1);
+            w.add(mc::C_STATES, 1);
+        });
         auto tasks = c04Tasks(corpus, thorough);
         for (char part : {'H', 'P', 'T', 'Q'})
         {
